@@ -32,18 +32,31 @@ func VerifC01() {
 	idx := verifNewIndex(dim, cfg)
 	ref := &verifRef{}
 	used := 0 // ids 0..used-1 have been inserted at least once
+	// shape bounds: fresh=1: an insert always takes the next unused id;
+	// phase=1: once something was removed nothing is inserted any more
+	fresh := verifrt.Bound("fresh", 0) == 1
+	phase := verifrt.Bound("phase", 0) == 1
+	removed := false
 	for step := 0; step < L; step++ {
 		nops := 2
 		if withSave == 1 {
 			nops = 3
 		}
-		switch verifrt.Choose("op", nops) {
+		op := verifrt.Choose("op", nops)
+		if op == 0 && ((phase && removed) || (fresh && used >= nIds)) {
+			continue
+		}
+		switch op {
 		case 0: // insert
 			hi := used
 			if hi >= nIds {
 				hi = nIds - 1
 			}
-			i := verifrt.IntIn("id", 0, hi)
+			lo := 0
+			if fresh {
+				lo = hi
+			}
+			i := verifrt.IntIn("id", lo, hi)
 			if i == used {
 				used++
 			}
@@ -69,6 +82,7 @@ func VerifC01() {
 			if ref.present[i] {
 				verifrt.Assert(err == nil, "remove-existing-succeeds")
 				ref.present[i] = false
+				removed = true
 				verifrt.Tag("after-remove")
 			} else {
 				verifrt.Assert(err == ItemNotFoundError, "remove-absent-fails")
